@@ -5,6 +5,8 @@ import (
 	"regexp"
 	"strconv"
 	"strings"
+	"sync"
+	"sync/atomic"
 
 	apierrors "k8s.io/apimachinery/pkg/api/errors"
 	metav1 "k8s.io/apimachinery/pkg/apis/meta/v1"
@@ -12,6 +14,7 @@ import (
 	proxyv1alpha1 "github.com/kubewharf/kubegateway/pkg/apis/proxy/v1alpha1"
 	"github.com/kubewharf/kubegateway/pkg/ratelimiter/limiter"
 	"github.com/kubewharf/kubegateway/pkg/ratelimiter/store/flowcontrol"
+	k8sstore "github.com/kubewharf/kubegateway/pkg/ratelimiter/store/k8s"
 	"github.com/kubewharf/kubegateway/pkg/ratelimiter/store/local"
 	"github.com/kubewharf/kubegateway/pkg/ratelimiter/util"
 
@@ -25,9 +28,15 @@ type Impl struct {
 	g      *limiter.VerifC18Rig
 	lim    limiter.RateLimiter
 	shards int
+	api    *apiSim // API-backed store mode only
 }
 
-func newImpl(shards int) *Impl {
+func newImpl(shards int, store string) *Impl {
+	if store == "k8s" {
+		api := newAPISim()
+		g := limiter.VerifC18NewWith("verif-limiter", shards, "k8s", api.client())
+		return &Impl{g: g, lim: g.VerifC18Limiter(), shards: shards, api: api}
+	}
 	g := limiter.VerifC18New("verif-limiter", shards)
 	return &Impl{g: g, lim: g.VerifC18Limiter(), shards: shards}
 }
@@ -104,6 +113,14 @@ func (im *Impl) observe() (StateJ, error) {
 	s.Leaders = im.g.VerifC18Leaders()
 	for sh, st := range im.g.VerifC18Stores() {
 		s.Shards = append(s.Shards, sh)
+		if im.api != nil {
+			// the API-backed store answers from its cache: that is what the limiter sees and what is judged
+			cache, ok := k8sstore.VerifC18Cache(st)
+			if !ok {
+				return s, fmt.Errorf("store of shard %d is not the API-backed store", sh)
+			}
+			st = cache
+		}
 		clusters, ok := local.VerifC18Dump(st)
 		if !ok {
 			return s, fmt.Errorf("store of shard %d is not the local store", sh)
@@ -177,6 +194,11 @@ func (im *Impl) observe() (StateJ, error) {
 	for _, u := range im.g.VerifC18Locks() {
 		s.Locks = append(s.Locks, rig.Hex(u))
 	}
+	if im.api != nil {
+		for _, n := range im.api.failing() {
+			s.Failing = append(s.Failing, rig.Hex(n))
+		}
+	}
 	s.canon()
 	return s, nil
 }
@@ -225,7 +247,7 @@ func (im *Impl) apply(op Op) (out OutJ, quota []ItemJ, err error) {
 	case "handle":
 		if e := im.g.VerifC18Handle(u); e != nil {
 			// the model's handler cannot fail except for a missing store, which it treats as a no-op
-			if !strings.Contains(e.Error(), "limit store for upstream") {
+			if !strings.Contains(e.Error(), "limit store for upstream") && !strings.Contains(e.Error(), "injected:") {
 				err = e
 			}
 		}
@@ -304,6 +326,58 @@ func (im *Impl) apply(op Op) (out OutJ, quota []ItemJ, err error) {
 			}
 			out.Rs = append(out.Rs, a)
 		}
+	case "faults":
+		if im.api != nil {
+			f := map[string]string{}
+			for _, x := range op.Faults {
+				f[rig.UnHex(x.Name)] = x.Kind
+			}
+			im.api.setFaults(f)
+		}
+	case "apiDelete":
+		if im.api != nil {
+			im.api.outOfBandDelete(rig.UnHex(op.Name))
+		}
+	case "burst":
+		// the first acquires of a joining instance arrive in parallel: goroutines released together through the
+		// real DoAcquire; the verdicts depend on the order and are not compared, the state at quiescence is
+		fc := rig.UnHex(op.FC)
+		var wg sync.WaitGroup
+		var gate int32
+		var panicked atomic.Value
+		for k, tok := range op.Toks {
+			wg.Add(1)
+			go func(k int, tok int32) {
+				defer wg.Done()
+				defer func() {
+					if r := recover(); r != nil {
+						panicked.Store(fmt.Sprint(r))
+					}
+				}()
+				acq := &proxyv1alpha1.RateLimitAcquire{ObjectMeta: metav1.ObjectMeta{Name: u},
+					Spec: proxyv1alpha1.RateLimitAcquireSpec{Instance: inst, RequestID: op.Rid + int64(k) + 1,
+						Requests: []proxyv1alpha1.RateLimitAcquireRequest{{FlowControl: fc, Tokens: tok}}}}
+				for atomic.LoadInt32(&gate) == 0 {
+				}
+				im.lim.DoAcquire(u, acq)
+			}(k, tok)
+		}
+		atomic.StoreInt32(&gate, 1)
+		wg.Wait()
+		if p := panicked.Load(); p != nil {
+			panic(p)
+		}
+		// the oracle for the model: the state the instance ended with
+		quota = nil
+		if st := im.g.VerifC18Stores()[util.GetShardID(u, im.shards)]; st != nil && im.g.VerifC18IsLeader(util.GetShardID(u, im.shards)) {
+			if f, e := st.GetFlowControl(u, fc); e == nil {
+				if v, ok := flowcontrol.VerifC18Inspect(f); ok && v.IsMif {
+					if x, ok := v.States[inst]; ok {
+						out.St = &[2]int64{x[0], x[1]}
+					}
+				}
+			}
+		}
 	default:
 		err = fmt.Errorf("unknown op %q", op.Op)
 	}
@@ -311,7 +385,7 @@ func (im *Impl) apply(op Op) (out OutJ, quota []ItemJ, err error) {
 }
 
 // modelOp is the op as the Lean driver reads it.
-func modelOp(op Op, quota []ItemJ) map[string]interface{} {
+func modelOp(op Op, quota []ItemJ, st *[2]int64) map[string]interface{} {
 	m := map[string]interface{}{"op": op.Op}
 	switch op.Op {
 	case "heartbeat":
@@ -344,6 +418,17 @@ func modelOp(op Op, quota []ItemJ) map[string]interface{} {
 			quota = []ItemJ{}
 		}
 		m["quota"] = quota
+	case "burst":
+		m["u"], m["i"], m["fc"] = op.U, op.I, op.FC
+		m["st"] = st
+	case "faults":
+		names := []string{}
+		for _, x := range op.Faults {
+			names = append(names, x.Name)
+		}
+		m["names"] = names
+	case "apiDelete":
+		m["name"] = op.Name
 	case "acquire":
 		m["u"], m["i"], m["rid"] = op.U, op.I, op.Rid
 		reqs := op.Reqs
